@@ -166,16 +166,22 @@ Proof.
   destruct (put sysb payload r); cbn; split; intro H; try discriminate; try (apply IH; exact H). destruct IH as [_ IH]. specialize (IH H). discriminate IH.
 Qed.
 
-(* a requester with an empty queue receives exactly the first arrival that carries its system bytes - never another one *)
+(* a requester with an empty queue receives exactly the first arrival without W-bit that carries its system bytes - never another one *)
+Definition is_reply_for (k : Z) (a : Z * Z * bool) : bool := (fst (fst a) =? k) && negb (snd a).
 Theorem reply_to_requester arrivals : forall w k, answer_of w k = None -> find (fun e => fst e =? k) w <> None ->
-  answer_of (fst (route w arrivals)) k = option_map snd (find (fun a => fst a =? k) arrivals).
+  answer_of (fst (route w arrivals)) k = option_map (fun a => snd (fst a)) (find (is_reply_for k) arrivals).
 Proof.
-  induction arrivals as [|[sysb payload] r IH]; intros w k Hq Hw; cbn [route find fst option_map]; [exact Hq|].
+  induction arrivals as [|[[sysb payload] wbit] r IH]; intros w k Hq Hw; cbn [route find fst snd option_map]; [exact Hq|].
+  unfold is_reply_for at 1. cbn [fst snd].
+  destruct wbit; cbn [negb].
+  { rewrite andb_false_r. destruct (route w r) as [w2 app] eqn:R. cbn [fst]. specialize (IH w k Hq Hw). rewrite R in IH. exact IH. }
+  rewrite andb_true_r.
   destruct (put sysb payload w) as [w1|] eqn:P.
   - destruct (sysb =? k) eqn:E.
-    + apply Z.eqb_eq in E. subst sysb. cbn [snd].
+    + apply Z.eqb_eq in E. subst sysb. cbn [snd fst option_map].
       assert (A : answer_of w1 k = Some payload) by (rewrite (put_first _ _ _ _ P), Hq; reflexivity).
-      clear IH Hq Hw P. revert w1 A. induction r as [|[s2 p2] r IHr]; intros w1 A; cbn [route fst]; [exact A|].
+      clear IH Hq Hw P. revert w1 A. induction r as [|[[s2 p2] b2] r IHr]; intros w1 A; cbn [route fst]; [exact A|].
+      destruct b2; [destruct (route w1 r) eqn:R; cbn [fst]; specialize (IHr w1 A); rewrite R in IHr; exact IHr|].
       destruct (put s2 p2 w1) as [w2|] eqn:P2; [|destruct (route w1 r) eqn:R; cbn [fst]; specialize (IHr w1 A); rewrite R in IHr; exact IHr].
       apply IHr. destruct (Z.eq_dec k s2) as [<-|N]; [rewrite (put_first _ _ _ _ P2), A; reflexivity|rewrite (put_other _ _ _ _ _ P2 N); exact A].
     + apply Z.eqb_neq in E. apply IH.
@@ -188,19 +194,25 @@ Proof.
     destruct (route w r) as [w2 app] eqn:R. cbn [fst]. apply Z.eqb_neq in N. rewrite N. specialize (IH w k Hq Hw). rewrite R in IH. exact IH.
 Qed.
 
-(* everything that is not a reply to a waiting requester reaches the application exactly once, in arrival order *)
+(* everything that is not a reply to a waiting requester - every message with W-bit, and every message whose system bytes nobody waits
+   for - reaches the application exactly once, in arrival order *)
+Definition for_app (w : waiters) (a : Z * Z * bool) : bool :=
+  snd a || match find (fun e => fst e =? fst (fst a)) w with None => true | Some _ => false end.
 Theorem others_in_order arrivals w : (forall e, In e w -> True) ->
-  snd (route w arrivals) = filter (fun a => match find (fun e => fst e =? fst a) w with None => true | Some _ => false end) arrivals.
+  snd (route w arrivals) = map fst (filter (for_app w) arrivals).
 Proof.
-  intros _. revert w. induction arrivals as [|[sysb payload] r IH]; intro w; cbn [route filter fst snd]; [reflexivity|].
+  intros _. revert w. induction arrivals as [|[[sysb payload] wbit] r IH]; intro w; cbn [route filter fst snd map]; [reflexivity|].
+  unfold for_app at 1. cbn [fst snd].
+  destruct wbit; cbn [orb].
+  { destruct (route w r) as [w2 app] eqn:R. cbn [snd map fst]. f_equal. specialize (IH w). rewrite R in IH. exact IH. }
   destruct (put sysb payload w) as [w1|] eqn:P.
   - assert (F : find (fun e => fst e =? sysb) w <> None) by (intro X; apply put_none with (payload := payload) in X; congruence).
-    destruct (find (fun e => fst e =? sysb) w); [|contradiction F; reflexivity]. rewrite IH.
-    apply filter_ext_in. intros [s2 p2] _. cbn [fst].
+    destruct (find (fun e => fst e =? sysb) w); [|contradiction F; reflexivity]. rewrite IH. f_equal.
+    apply filter_ext_in. intros [[s2 p2] b2] _. unfold for_app. cbn [fst snd]. f_equal.
     assert (K : forall k, match find (fun e => fst e =? k) w1 with None => true | Some _ => false end = match find (fun e => fst e =? k) w with None => true | Some _ => false end).
     { clear -P. intro k. revert w1 P. induction w as [|[k0 q] w IHw]; intros w1 P; cbn in P; [discriminate P|].
       destruct (k0 =? sysb) eqn:E0; [injection P as <-; cbn [find fst]; destruct (k0 =? k); reflexivity|].
       destruct (put sysb payload w) as [w2|]; [|discriminate P]. injection P as <-. cbn [find fst]. destruct (k0 =? k); [reflexivity|]. apply IHw. reflexivity. }
     apply K.
-  - apply put_none in P. rewrite P. destruct (route w r) as [w2 app] eqn:R. cbn [snd]. f_equal. specialize (IH w). rewrite R in IH. exact IH.
+  - apply put_none in P. rewrite P. destruct (route w r) as [w2 app] eqn:R. cbn [snd map fst]. f_equal. specialize (IH w). rewrite R in IH. exact IH.
 Qed.
